@@ -12,6 +12,7 @@ import (
 	"flag"
 	"fmt"
 	"os"
+	"runtime/debug"
 	"sort"
 )
 
@@ -51,7 +52,20 @@ func main() {
 			os.Exit(2)
 		}
 		r := newRun(id, *seed, *tier, *out)
-		if err := f(r); err != nil {
+		runGuarded := func() (err error) {
+			defer func() {
+				if p := recover(); p != nil {
+					if pf, ok := p.(*plainReadFailure); ok {
+						r.Fail(Failure{Key: "plain-genome-not-read-back", What: pf.What, Input: map[string]string{"plain_genome": pf.Text}})
+						return
+					}
+					r.Fail(Failure{Key: "implementation-panic", What: fmt.Sprintf("the implementation (or the harness driving it) panicked: %v", p),
+						Input: map[string]string{"panic": fmt.Sprint(p), "stack": string(debug.Stack())}})
+				}
+			}()
+			return f(r)
+		}
+		if err := runGuarded(); err != nil {
 			fmt.Fprintf(os.Stderr, "runner %s failed: %v\n", id, err)
 			os.Exit(3)
 		}
